@@ -62,6 +62,36 @@ def b64dec : B → Option B
      | _, _, _, _, _ => none)
   | _ => none
 
+/-! ### base64, URL alphabet, without padding (encoding/base64.RawURLEncoding: the X-GRPC-Details headers) -/
+
+def b64rawenc : B → B
+  | a :: b :: c :: rest =>
+    enc6 (a / 4) :: enc6 ((a % 4) * 16 + b / 16) :: enc6 ((b % 16) * 4 + c / 64) :: enc6 (c % 64) :: b64rawenc rest
+  | [a, b] => [enc6 (a / 4), enc6 ((a % 4) * 16 + b / 16), enc6 ((b % 16) * 4)]
+  | [a] => [enc6 (a / 4), enc6 ((a % 4) * 16)]
+  | [] => []
+
+def b64rawdec : B → Option B
+  | [] => some []
+  | [c0, c1] =>
+    (match dec6 c0, dec6 c1 with
+     | some s0, some s1 => some [s0 * 4 + s1 / 16]
+     | _, _ => none)
+  | [c0, c1, c2] =>
+    (match dec6 c0, dec6 c1, dec6 c2 with
+     | some s0, some s1, some s2 => some [s0 * 4 + s1 / 16, (s1 % 16) * 16 + s2 / 4]
+     | _, _, _ => none)
+  | c0 :: c1 :: c2 :: c3 :: rest =>
+    (match dec6 c0, dec6 c1, dec6 c2, dec6 c3, b64rawdec rest with
+     | some s0, some s1, some s2, some s3, some r =>
+       some ((s0 * 4 + s1 / 16) :: ((s1 % 16) * 16 + s2 / 4) :: ((s2 % 4) * 64 + s3) :: r)
+     | _, _, _, _, _ => none)
+  | _ => none
+
+/-- the details sites use the unpadded URL variant on both sides (regenerated) -/
+def detailSitesPaired : Bool :=
+  Gen.b64DetailsEncode == "RawURLEncoding.EncodeToString" && Gen.b64DetailsDecode == "RawURLEncoding.DecodeString"
+
 /-! ### keys -/
 
 def lowerB (c : Nat) : Nat := if 65 ≤ c ∧ c ≤ 90 then c + 32 else c
